@@ -80,6 +80,9 @@ var expectedTypes = map[string][2]string{ // cfg -> {block, native GCM}
 	"avxoff":  {"*sm4.sm4CipherGCM", "*sm4.gcmAsm"},
 	"aesni1":  {"*sm4.sm4CipherGCM", "*sm4.gcmAsm"},
 	"noclmul": {"*sm4.sm4CipherAsm", "*sm4.gcm"},
+	// the table-driven GCM over 4-block batches (AVX2 off) and over the SSE block code
+	"noclmul-noavx2": {"*sm4.sm4CipherAsm", "*sm4.gcm"},
+	"noclmul-noavx":  {"*sm4.sm4CipherAsm", "*sm4.gcm"},
 	"noaes":   {"*sm4.sm4Cipher", "*cipher.gcm"},
 	"purego":  {"*sm4.sm4Cipher", "*cipher.gcm"},
 }
